@@ -207,6 +207,7 @@ def case_task(task):
                     part.see("%s|a%s|op%s" % (gen.key_str(f.key()) if not c.get("big") else "big%d" % c["id"], alpha, op))
                     if c.get("big"):
                         part.count("big_trees_evaluated")
+                        part.maxi("most_top_level_clones", len(f.tops()))
                 built.append((f.key(), ref_tree))
                 if len(part.samples) < 2:
                     part.sample(dict(case, alphas=c["alphas"], reference=[ref_p, ref_one]))
@@ -265,11 +266,18 @@ def run(ctx):
     for i in range(6 if quick else 64):
         n = int(rng.integers(280, 330))
         op = [0.0, 0.01][i % 2]
-        wide = i % 6 == 5  # wide sibling sets stay inside the underflow window only with flat data
-        f = gen.random_forest(rng, n, max_children=300 if wide else [8, 2, 4][i % 3], p_outlier=0.01 if op > 0 else 0.0,
-                              shape="star" if wide else [None, "chain", "bushy"][i % 3], n_tops=40 if wide else [1, 3, 2][i % 3],
-                              min_clones=258)
-        bigs.append({"id": cid, "n": n, "D": 1 + i % 2, "G": [3, 5][i % 2], "outlier_prior": op,
+        wide = i % 6 in (4, 5)  # wide sibling sets stay inside the underflow window only with flat data
+        if i % 6 == 4:
+            # many top-level clones (a hundred and more), the others spread below them
+            T = [110, 150, 104, 130, 103, 102][(i // 6) % 6]
+            parent = [None] * T + [0] + list(range(T, n - 1))  # T top-level clones, the rest a chain below the first
+            outs = [n - 1] if op > 0 else []
+            f = gen.AForest([[j] for j in range(n - len(outs))], parent[: n - len(outs)], outs)
+        else:
+            f = gen.random_forest(rng, n, max_children=60 if wide else [8, 2, 4][i % 3], p_outlier=0.01 if op > 0 else 0.0,
+                                  shape="star" if wide else [None, "chain", "bushy"][i % 3],
+                                  n_tops=40 if wide else [1, 3, 2][i % 3], min_clones=258)
+        bigs.append({"id": cid, "n": n, "D": 1 + i % 2, "G": 3 if i % 6 == 4 else [3, 5][i % 2], "outlier_prior": op,
                      "kind": "flat" if wide else ["smooth", "flat", "moderate", "twins"][i % 4], "alphas": [alphas[i % 5]],
                      "forests": [f.describe()], "cluster_sizes": bool(i % 4 == 0), "big": True})
         cid += 1
